@@ -1,4 +1,1217 @@
-//! spaces: not built yet.
-pub fn run(args: &vh_common::Args) {
-    vh_common::unknown(args)
+//! Spaces (C39): `p2panda_spaces::Manager::process` is idempotent and total — against spec/Spaces.
+use std::borrow::Borrow;
+use std::collections::{BTreeMap, BTreeSet};
+use std::panic::AssertUnwindSafe;
+
+use futures_util::FutureExt;
+use p2panda_auth::Access;
+use p2panda_auth::group::{GroupAction, GroupMember};
+use p2panda_core::traits::Digest;
+use p2panda_core::{Hash, VerifyingKey};
+use p2panda_encryption::Rng as CryptoRng;
+use p2panda_encryption::crypto::x25519::SecretKey;
+use p2panda_encryption::key_bundle::{Lifetime, LongTermKeyBundle, PreKey};
+use p2panda_spaces::test_utils::{TestConditions, TestForge, TestOperation, TestPeer, TestSpacesStore};
+use p2panda_spaces::{AuthMessage, Event, Forge, SpacesArgs, SpacesStoreState};
+use p2panda_store::groups::GroupsStore;
+use p2panda_store::key_registry::KeyRegistryStore;
+use p2panda_store::spaces::SpacesStore;
+use p2panda_store::tx_unwrap;
+use vh_common::{Args, Outcome, Rng, TraceWriter, Value, json, read_ndjson, unknown};
+
+type Args_ = SpacesArgs<TestConditions>;
+
+pub fn run(args: &Args) {
+    match args.mode.as_str() {
+        "replay" => replay(args),
+        "record" => record(args),
+        _ => unknown(args),
+    }
+}
+
+fn hx(h: &Hash) -> String {
+    h.to_hex()[..8].to_string()
+}
+fn kx(k: &VerifyingKey) -> String {
+    k.to_hex()[..8].to_string()
+}
+
+/// Result of one `process` call on the real manager.
+#[derive(Debug, Clone)]
+enum Verdict {
+    /// (event name, application payload if any)
+    Ok(Vec<(String, Option<String>)>),
+    Err(String),
+    Panic(String),
+}
+
+impl Verdict {
+    fn name(&self) -> &'static str {
+        match self {
+            Verdict::Ok(_) => "ok",
+            Verdict::Err(_) => "err",
+            Verdict::Panic(_) => "panic",
+        }
+    }
+}
+
+fn event_name(e: &Event<TestConditions>) -> String {
+    use p2panda_spaces::Event::*;
+    match e {
+        Application { .. } => "Application".into(),
+        KeyBundle { .. } => "KeyBundle".into(),
+        Group(g) => {
+            let s = format!("{g:?}");
+            format!("Group.{}", s.split([' ', '{', '(']).next().unwrap_or("?"))
+        }
+        Space(sp) => {
+            let s = format!("{sp:?}");
+            format!("Space.{}", s.split([' ', '{', '(']).next().unwrap_or("?"))
+        }
+    }
+}
+
+/// `process` + persist, with a panic of the code under test caught and turned into data.
+async fn process(peer: &TestPeer, op: &TestOperation) -> Verdict {
+    let _ = peer.persist_operation(op).await;
+    let fut = AssertUnwindSafe(peer.manager.process_persisted(op)).catch_unwind();
+    match fut.await {
+        Ok(Ok(events)) => Verdict::Ok(
+            events
+                .iter()
+                .map(|e| {
+                    let data = match e {
+                        Event::Application { data, .. } => Some(String::from_utf8_lossy(data).to_string()),
+                        _ => None,
+                    };
+                    (event_name(e), data)
+                })
+                .collect(),
+        ),
+        Ok(Err(e)) => Verdict::Err(e.to_string()),
+        Err(p) => {
+            let msg = if let Some(s) = p.downcast_ref::<&str>() {
+                s.to_string()
+            } else if let Some(s) = p.downcast_ref::<String>() {
+                s.clone()
+            } else {
+                "panic".to_string()
+            };
+            Verdict::Panic(msg)
+        }
+    }
+}
+
+/// Canonical form of a CBOR value: map entries and array elements sorted (HashMap / HashSet
+/// iteration order must not matter; duplicates still do).
+fn canon(v: &ciborium::Value) -> String {
+    use ciborium::Value as V;
+    match v {
+        V::Array(xs) => {
+            let mut parts: Vec<String> = xs.iter().map(canon).collect();
+            parts.sort();
+            format!("[{}]", parts.join(","))
+        }
+        V::Map(kvs) => {
+            let mut parts: Vec<String> = kvs.iter().map(|(k, v)| format!("{}:{}", canon(k), canon(v))).collect();
+            parts.sort();
+            format!("{{{}}}", parts.join(","))
+        }
+        V::Bytes(b) => format!("h'{}'", b.iter().map(|x| format!("{x:02x}")).collect::<String>()),
+        V::Tag(t, inner) => format!("{t}({})", canon(inner)),
+        other => format!("{other:?}"),
+    }
+}
+
+fn canon_of<T: serde::Serialize>(t: &T) -> String {
+    let v = ciborium::Value::serialized(t).expect("state serialises");
+    let s = canon(&v);
+    Hash::digest(s.as_bytes()).to_hex()[..16].to_string()
+}
+
+fn global_ctx() -> Hash {
+    Hash::digest(b"global-groups-context")
+}
+
+fn access_name(a: &Access<TestConditions>) -> String {
+    format!("{a}")
+}
+
+/// Everything observable about one replica.
+#[derive(Debug, Clone, PartialEq, Eq)]
+struct Snap {
+    /// group id -> sorted members (public `members` view of the global auth state)
+    groups: BTreeMap<String, Vec<(String, String)>>,
+    auth_heads: BTreeSet<String>,
+    /// space id -> (group, members, auth heads, space heads, welcomed)
+    spaces: BTreeMap<String, SpaceSnap>,
+    /// digests of the complete persisted states
+    d_groups: String,
+    d_spaces: BTreeMap<String, String>,
+    d_registry: String,
+}
+
+#[derive(Debug, Clone, PartialEq, Eq)]
+struct SpaceSnap {
+    group: String,
+    members: Vec<(String, String)>,
+    auth_heads: BTreeSet<String>,
+    heads: BTreeSet<String>,
+    welcomed: bool,
+}
+
+async fn snapshot(peer: &TestPeer) -> Snap {
+    let store = TestSpacesStore::new(peer.store.clone());
+    let groups_y = tx_unwrap!(peer.store, {
+        <TestSpacesStore as GroupsStore<AuthMessage<TestConditions>, TestConditions>>::get_groups_state_tx(&store, global_ctx())
+            .await
+            .unwrap()
+    })
+    .unwrap_or_default();
+    let mut groups = BTreeMap::new();
+    for gid in groups_y.inner.current_state().keys() {
+        let mut ms: Vec<(String, String)> =
+            groups_y.members(*gid).iter().map(|(m, a)| (kx(m), access_name(a))).collect();
+        ms.sort();
+        groups.insert(kx(gid), ms);
+    }
+    let auth_heads = groups_y.inner.heads().iter().map(hx).collect();
+    let d_groups = canon_of(&groups_y);
+
+    let ids = <TestSpacesStore as SpacesStore<SpacesStoreState<TestConditions>>>::space_ids(&store)
+        .await
+        .unwrap();
+    let mut spaces = BTreeMap::new();
+    let mut d_spaces = BTreeMap::new();
+    for id in ids {
+        let y: SpacesStoreState<TestConditions> = tx_unwrap!(peer.store, {
+            <TestSpacesStore as SpacesStore<SpacesStoreState<TestConditions>>>::get_space_state_tx(&store, &id)
+                .await
+                .unwrap()
+        })
+        .expect("listed space has state");
+        let mut ms: Vec<(String, String)> =
+            y.groups_y.members(y.group_id).iter().map(|(m, a)| (kx(m), access_name(a))).collect();
+        ms.sort();
+        spaces.insert(
+            hx(&id),
+            SpaceSnap {
+                group: kx(&y.group_id),
+                members: ms,
+                auth_heads: y.groups_y.inner.heads().iter().map(hx).collect(),
+                heads: y.orderer.heads().iter().map(hx).collect(),
+                welcomed: y.is_welcomed,
+            },
+        );
+        d_spaces.insert(hx(&id), canon_of(&y));
+    }
+    let reg = <TestSpacesStore as KeyRegistryStore>::get_key_registry(&store).await.unwrap();
+    let d_registry = match reg {
+        Some(r) => canon_of(&r),
+        None => "none".into(),
+    };
+    Snap { groups, auth_heads, spaces, d_groups, d_spaces, d_registry }
+}
+
+async fn forge(peer: &TestPeer, args: Args_) -> TestOperation {
+    let f = TestForge::new(peer.store.clone(), peer.credentials.signing_key());
+    f.forge(args).await.expect("forge")
+}
+
+fn runtime() -> tokio::runtime::Runtime {
+    tokio::runtime::Builder::new_current_thread().enable_all().build().unwrap()
+}
+
+
+
+impl Snap {
+    /// group / space state through the membership queries, graph heads and the welcomed flag
+    fn abs_eq(&self, o: &Snap) -> bool {
+        self.groups == o.groups && self.auth_heads == o.auth_heads && self.spaces == o.spaces
+    }
+    /// the complete persisted group and space states (canonical digests)
+    fn digest_eq(&self, o: &Snap) -> bool {
+        self.d_groups == o.d_groups && self.d_spaces == o.d_spaces
+    }
+}
+
+async fn groups_state(peer: &TestPeer) -> p2panda_auth::group::GroupCrdtState<VerifyingKey, Hash, AuthMessage<TestConditions>, TestConditions> {
+    let store = TestSpacesStore::new(peer.store.clone());
+    tx_unwrap!(peer.store, {
+        <TestSpacesStore as GroupsStore<AuthMessage<TestConditions>, TestConditions>>::get_groups_state_tx(&store, global_ctx())
+            .await
+            .unwrap()
+    })
+    .unwrap_or_default()
+}
+
+async fn space_state(peer: &TestPeer, sid: &Hash) -> Option<SpacesStoreState<TestConditions>> {
+    let store = TestSpacesStore::new(peer.store.clone());
+    tx_unwrap!(peer.store, {
+        <TestSpacesStore as SpacesStore<SpacesStoreState<TestConditions>>>::get_space_state_tx(&store, sid)
+            .await
+            .unwrap()
+    })
+}
+
+// ---------------------------------------------------------------------------------------------
+// World: real peers + the messages created so far
+
+const PEER_NAMES: [&str; 4] = ["p1", "p2", "p3", "p4"];
+const MANAGER: usize = 0;
+
+fn peer_index(name: &str) -> usize {
+    PEER_NAMES.iter().position(|n| *n == name).unwrap_or_else(|| {
+        eprintln!("unknown peer {name}");
+        std::process::exit(2)
+    })
+}
+
+struct Msg {
+    op: TestOperation,
+    author: usize,
+    kind: &'static str,
+    cls: String,
+    /// auth action / target / access of valid auth messages; referenced auth message of valid member messages
+    act: String,
+    q: usize,
+    acc: String,
+    reference: Option<usize>,
+    /// dependencies by the specification's rule (DepsFor), used to schedule first deliveries
+    spec_deps: BTreeSet<usize>,
+}
+
+struct World {
+    peers: Vec<TestPeer>,
+    msgs: Vec<Msg>,
+    by_hash: BTreeMap<Hash, usize>,
+    space_id: Hash,
+    group_id: Option<VerifyingKey>,
+    /// operations that are not messages of the history but must be in a receiver's message store
+    /// (the auth operation a forged pointer refers to)
+    extra: Vec<TestOperation>,
+}
+
+fn kind_of(a: &Args_) -> &'static str {
+    match a {
+        SpacesArgs::KeyBundle { .. } => "kb",
+        SpacesArgs::Auth { .. } => "auth",
+        SpacesArgs::SpaceMembership { .. } => "member",
+        SpacesArgs::SpaceUpdate { .. } => "update",
+        SpacesArgs::Application { .. } => "app",
+    }
+}
+
+fn access_of(acc: &str) -> Access<TestConditions> {
+    match acc {
+        "pull" => Access::pull(),
+        "read" => Access::read(),
+        "manage" => Access::manage(),
+        _ => Access::write(),
+    }
+}
+
+fn rnd_hash() -> Hash {
+    Hash::digest(b"no such message")
+}
+
+fn rnd_key() -> VerifyingKey {
+    p2panda_core::SigningKey::from_bytes(&[77; 32]).verifying_key()
+}
+
+impl World {
+    async fn new(n: usize, oob: bool) -> World {
+        let mut peers = Vec::new();
+        for i in 0..n {
+            peers.push(TestPeer::new(i as u8).await);
+        }
+        for i in 0..peers.len() {
+            // every peer generates its own bundle; with `oob` everybody learns everybody's bundle
+            let me = peers[i].manager.me().await.unwrap();
+            if oob {
+                for j in 0..peers.len() {
+                    if i != j {
+                        peers[j].manager.register_member(&me).await.unwrap();
+                    }
+                }
+            }
+        }
+        World { peers, msgs: vec![], by_hash: BTreeMap::new(), space_id: Hash::digest(b"s1"), group_id: None, extra: vec![] }
+    }
+
+    fn register(&mut self, op: TestOperation, author: usize, cls: &str, act: &str, q: usize, acc: &str, spec_deps: BTreeSet<usize>) -> usize {
+        let args: &Args_ = op.borrow();
+        let kind = kind_of(args);
+        let reference = match args {
+            SpacesArgs::SpaceMembership { auth_message_id, .. } => self.by_hash.get(auth_message_id).copied(),
+            _ => None,
+        };
+        let idx = self.msgs.len();
+        self.by_hash.insert(op.hash(), idx);
+        self.msgs.push(Msg { op, author, kind, cls: cls.to_string(), act: act.to_string(), q, acc: acc.to_string(), reference, spec_deps });
+        idx
+    }
+
+    fn valid(&self, i: usize) -> bool {
+        self.msgs[i].cls == "valid"
+    }
+
+    /// Spaces.tla DepsFor
+    fn deps_for(&self, applied: &BTreeSet<usize>, kind: &str) -> BTreeSet<usize> {
+        match kind {
+            "kb" => BTreeSet::new(),
+            "auth" => applied.iter().copied().filter(|k| self.valid(*k) && self.msgs[*k].kind == "auth").collect(),
+            _ => applied.iter().copied().filter(|k| self.valid(*k) && self.msgs[*k].kind != "kb").collect(),
+        }
+    }
+
+    /// Local operation through the public API; `Err` = the API refused (or panicked).
+    async fn local(&mut self, applied: &BTreeSet<usize>, p: usize, op: &str, q: usize, acc: &str) -> Result<Vec<usize>, String> {
+        let access = access_of(acc);
+        let qid = self.peers.get(q).map(|x| x.manager.id());
+        let sid = self.space_id;
+        let peer = &self.peers[p];
+        let n = self.msgs.len();
+        let fut = AssertUnwindSafe(async {
+            match op {
+                "kb" => peer.manager.key_bundle_message().await.map(|m| vec![m]).map_err(|e| e.to_string()),
+                "create" => {
+                    let init: Vec<(VerifyingKey, Access<TestConditions>)> = match qid {
+                        Some(k) if q != p => vec![(k, access.clone())],
+                        _ => vec![],
+                    };
+                    peer.manager.create_space_persisted(sid, &init).await.map(|(_, ms)| ms).map_err(|e| e.to_string())
+                }
+                "add" => {
+                    let sp = peer.manager.space(sid).await.map_err(|e| e.to_string())?.ok_or("no space")?;
+                    sp.add_persisted(qid.unwrap(), access.clone()).await.map(|(a, b)| vec![a, b]).map_err(|e| e.to_string())
+                }
+                "remove" => {
+                    let sp = peer.manager.space(sid).await.map_err(|e| e.to_string())?.ok_or("no space")?;
+                    sp.remove_persisted(qid.unwrap()).await.map(|(a, b)| vec![a, b]).map_err(|e| e.to_string())
+                }
+                "publish" => {
+                    let sp = peer.manager.space(sid).await.map_err(|e| e.to_string())?.ok_or("no space")?;
+                    let payload = format!("payload-{}", n + 1);
+                    sp.publish_persisted(payload.as_bytes()).await.map(|m| vec![m]).map_err(|e| e.to_string())
+                }
+                _ => Err(format!("unknown op {op}")),
+            }
+        })
+        .catch_unwind();
+        let ops = match fut.await {
+            Ok(r) => r?,
+            Err(_) => return Err("panic in local operation".into()),
+        };
+        if op == "create" {
+            if let Ok(Some(sp)) = self.peers[p].manager.space(sid).await {
+                self.group_id = sp.group_id().await.ok();
+            }
+        }
+        let mut out = vec![];
+        let mut mine = applied.clone();
+        for o in ops {
+            let kind = kind_of(o.borrow());
+            let mut deps = self.deps_for(&mine, kind);
+            if kind == "member" {
+                if let Some(a) = out.last() {
+                    deps.insert(*a);
+                }
+            }
+            let (act, tq, tacc) = if kind == "auth" { (op, q, acc) } else { ("", 0, "") };
+            let idx = self.register(o, p, "valid", act, tq, tacc, deps);
+            mine.insert(idx);
+            out.push(idx);
+        }
+        Ok(out)
+    }
+
+    /// (space members, group members) of space s1 / its group: peer name -> access.
+    fn members_of(&self, snap: &Snap) -> (BTreeMap<String, String>, BTreeMap<String, String>) {
+        let short = |k: &String| -> String {
+            for (i, p) in self.peers.iter().enumerate() {
+                if kx(&p.manager.id()) == *k {
+                    return PEER_NAMES[i].to_string();
+                }
+            }
+            format!("k:{k}")
+        };
+        let smem = snap
+            .spaces
+            .get(&hx(&self.space_id))
+            .map(|s| s.members.iter().map(|(m, a)| (short(m), a.clone())).collect())
+            .unwrap_or_default();
+        let gmem = self
+            .group_id
+            .and_then(|g| snap.groups.get(&kx(&g)))
+            .map(|ms| ms.iter().map(|(m, a)| (short(m), a.clone())).collect())
+            .unwrap_or_default();
+        (smem, gmem)
+    }
+
+    fn latest(&self, pred: impl Fn(&Msg) -> bool) -> Option<usize> {
+        (0..self.msgs.len()).rev().find(|i| pred(&self.msgs[*i]))
+    }
+
+    /// Concretises an adversarial content class with real bytes (the case structure lives in
+    /// Spaces.tla: ClassKind, Forger, ForgePre, NoDepClasses). `None`: not constructible here.
+    async fn forge_variant(&mut self, applied_by: &BTreeSet<usize>, by: usize, cls: &str) -> Option<usize> {
+        let sid = self.space_id;
+        let gid = self.group_id?;
+        let mgr = &self.peers[MANAGER];
+        let forger = &self.peers[by];
+        let auth_heads: Vec<Hash> = groups_state(forger).await.inner.heads().into_iter().collect();
+        let space_y = space_state(forger, &sid).await;
+        let space_heads: Vec<Hash> = space_y.as_ref().map(|y| y.orderer.heads().to_vec()).unwrap_or_default();
+        let mgr_members = groups_state(mgr).await.members(gid);
+        let target = self
+            .peers
+            .iter()
+            .map(|p| p.manager.id())
+            .find(|k| *k != mgr.manager.id() && mgr_members.iter().any(|(m, _)| m == k));
+        let ind = GroupMember::Individual;
+        let auth = |group_id, group_action, auth_dependencies| SpacesArgs::Auth { group_id, group_action, auth_dependencies };
+        let member = |space_id, group_id, space_dependencies, auth_message_id| SpacesArgs::SpaceMembership {
+            space_id,
+            group_id,
+            space_dependencies,
+            auth_message_id,
+            direct_messages: vec![],
+        };
+        let args: Args_ = match cls {
+            "update" => SpacesArgs::SpaceUpdate { space_id: sid, group_id: gid, space_dependencies: space_heads },
+            "update_unknown" => SpacesArgs::SpaceUpdate { space_id: rnd_hash(), group_id: rnd_key(), space_dependencies: vec![] },
+            "auth_promote" => auth(gid, GroupAction::Promote { member: ind(target?), access: Access::manage() }, auth_heads),
+            "auth_demote" => auth(gid, GroupAction::Demote { member: ind(target?), access: Access::pull() }, auth_heads),
+            "auth_unknown_group" => auth(rnd_key(), GroupAction::Add { member: ind(rnd_key()), access: Access::read() }, auth_heads),
+            "auth_no_deps" => auth(gid, GroupAction::Add { member: ind(rnd_key()), access: Access::read() }, vec![]),
+            "auth_unknown_dep" => auth(gid, GroupAction::Add { member: ind(rnd_key()), access: Access::read() }, vec![rnd_hash()]),
+            "auth_non_manager" => auth(gid, GroupAction::Add { member: ind(rnd_key()), access: Access::read() }, auth_heads),
+            "auth_dup_create" => auth(
+                gid,
+                GroupAction::Create { initial_members: vec![(ind(mgr.manager.id()), Access::manage())] },
+                auth_heads,
+            ),
+            "auth_remove_nonmember" => auth(gid, GroupAction::Remove { member: ind(rnd_key()) }, auth_heads),
+            "auth_add_group_manage" => auth(gid, GroupAction::Add { member: GroupMember::Group(rnd_key()), access: Access::manage() }, auth_heads),
+            "auth_add_self_group" => auth(gid, GroupAction::Add { member: GroupMember::Group(gid), access: Access::read() }, auth_heads),
+            "member_unknown_auth" => member(sid, gid, space_heads, rnd_hash()),
+            "member_ptr_not_auth" => {
+                let k = self.latest(|m| m.cls == "valid" && (m.kind == "kb" || m.kind == "app"))?;
+                member(sid, gid, space_heads, self.msgs[k].op.hash())
+            }
+            "member_unknown_space" => {
+                let k = self.latest(|m| m.cls == "valid" && m.kind == "auth" && m.act != "create")?;
+                member(rnd_hash(), gid, vec![], self.msgs[k].op.hash())
+            }
+            "member_new_space" => {
+                let k = self.latest(|m| m.cls == "valid" && m.kind == "auth" && m.act == "create")?;
+                member(Hash::digest(b"s2"), gid, vec![], self.msgs[k].op.hash())
+            }
+            "member_wrong_group" => {
+                let k = self.latest(|m| m.cls == "valid" && m.kind == "auth")?;
+                member(sid, rnd_key(), space_heads, self.msgs[k].op.hash())
+            }
+            "member_dup_pointer" => {
+                let k = (0..self.msgs.len()).rev().find(|i| applied_by.contains(i) && self.valid(*i) && self.msgs[*i].kind == "auth")?;
+                member(sid, gid, space_heads, self.msgs[k].op.hash())
+            }
+            "member_ptr_promote" => {
+                let promote = forge(forger, auth(gid, GroupAction::Promote { member: ind(target?), access: Access::manage() }, auth_heads)).await;
+                let h = promote.hash();
+                self.extra.push(promote);
+                member(sid, gid, space_heads, h)
+            }
+            "app_unknown_space" => SpacesArgs::Application {
+                space_id: rnd_hash(),
+                space_dependencies: vec![],
+                group_secret_id: [1; 32],
+                nonce: [0; 24],
+                ciphertext: vec![1, 2, 3],
+            },
+            "app_wrong_secret" => SpacesArgs::Application {
+                space_id: sid,
+                space_dependencies: space_heads,
+                group_secret_id: [1; 32],
+                nonce: [0; 24],
+                ciphertext: vec![1, 2, 3],
+            },
+            "app_garbage" => {
+                let secret = space_state(mgr, &sid).await?.secrets.latest().map(|s| s.id())?;
+                SpacesArgs::Application { space_id: sid, space_dependencies: space_heads, group_secret_id: secret, nonce: [3; 24], ciphertext: vec![9; 40] }
+            }
+            "app_unknown_dep" => {
+                let k = self.latest(|m| m.cls == "valid" && m.kind == "app")?;
+                let a: &Args_ = self.msgs[k].op.borrow();
+                match a {
+                    SpacesArgs::Application { group_secret_id, nonce, ciphertext, .. } => SpacesArgs::Application {
+                        space_id: sid,
+                        space_dependencies: vec![rnd_hash()],
+                        group_secret_id: group_secret_id.clone(),
+                        nonce: nonce.clone(),
+                        ciphertext: ciphertext.clone(),
+                    },
+                    _ => return None,
+                }
+            }
+            "kb_other_identity" | "kb_bad_signature" | "kb_expired" => {
+                let rng = CryptoRng::from_seed([9; 32]);
+                let other_identity = SecretKey::from_rng(&rng).ok()?;
+                let prekey_secret = SecretKey::from_rng(&rng).ok()?;
+                let now = std::time::SystemTime::now().duration_since(std::time::UNIX_EPOCH).unwrap().as_secs();
+                let key_bundle = match cls {
+                    "kb_other_identity" => {
+                        let prekey = PreKey::new(prekey_secret.verifying_key().ok()?, Lifetime::new(3600));
+                        let sig = prekey.sign(&other_identity, &rng).ok()?;
+                        LongTermKeyBundle::new(other_identity.verifying_key().ok()?, prekey, sig)
+                    }
+                    "kb_bad_signature" => {
+                        let prekey = PreKey::new(prekey_secret.verifying_key().ok()?, Lifetime::new(3600));
+                        let sig = prekey.sign(&prekey_secret, &rng).ok()?;
+                        LongTermKeyBundle::new(forger.credentials.identity_secret().verifying_key().ok()?, prekey, sig)
+                    }
+                    _ => {
+                        let prekey = PreKey::new(prekey_secret.verifying_key().ok()?, Lifetime::from_range(now - 100, now - 50));
+                        let sig = prekey.sign(&forger.credentials.identity_secret(), &rng).ok()?;
+                        LongTermKeyBundle::new(forger.credentials.identity_secret().verifying_key().ok()?, prekey, sig)
+                    }
+                };
+                SpacesArgs::KeyBundle { key_bundle }
+            }
+            _ => return None,
+        };
+        let kind = kind_of(&args);
+        let no_deps = [
+            "update_unknown", "auth_no_deps", "auth_unknown_dep", "member_unknown_auth", "app_unknown_space", "app_unknown_dep",
+            "kb_other_identity", "kb_bad_signature", "kb_expired",
+        ];
+        let deps = if no_deps.contains(&cls) { BTreeSet::new() } else { self.deps_for(applied_by, kind) };
+        let op = forge(&self.peers[by], args).await;
+        Some(self.register(op, by, cls, "", 0, "", deps))
+    }
+}
+
+/// All adversarial content classes (Spaces.tla ClassKind).
+const ALL_CLASSES: [&str; 27] = [
+    "update", "update_unknown", "auth_promote", "auth_demote", "auth_unknown_group", "auth_no_deps", "auth_unknown_dep",
+    "auth_non_manager", "auth_dup_create", "auth_remove_nonmember", "auth_add_group_manage", "auth_add_self_group",
+    "member_unknown_auth", "member_ptr_not_auth", "member_unknown_space", "member_new_space", "member_wrong_group",
+    "member_dup_pointer", "member_ptr_promote", "app_unknown_space", "app_wrong_secret", "app_garbage", "app_unknown_dep",
+    "kb_other_identity", "kb_bad_signature", "kb_expired", "",
+];
+
+// ---------------------------------------------------------------------------------------------
+// Executor shared by replay and record
+
+/// Defects of the unchanged tree that are listed in known_findings.json: the harness reports them
+/// under exactly these signatures and the recorded trace marks the event (Trace_Spaces skips it).
+const KNOWN_SIGNATURES: [&str; 2] = ["redelivery-emits-events:kb", "panic:auth-group-missing"];
+
+struct ProcOut {
+    verdict: Verdict,
+    again: bool,
+    nev: usize,
+    changed_abs: bool,
+    changed_digest: bool,
+    changed_registry: bool,
+    smem: BTreeMap<String, String>,
+    gmem: BTreeMap<String, String>,
+    /// C39 violations seen in this step: (signature, detail)
+    violations: Vec<(String, String)>,
+}
+
+struct Exec {
+    w: World,
+    applied: Vec<BTreeSet<usize>>,
+    /// per peer: application payload -> number of Application events emitted so far
+    app_seen: Vec<BTreeMap<String, u32>>,
+    /// the steps executed so far in the TLC export format (a replayable case)
+    steps: Vec<Value>,
+    oob: bool,
+}
+
+fn panic_signature(m: &Msg, text: &str) -> String {
+    if text.contains("group already present in states map") {
+        "panic:auth-group-missing".into()
+    } else if m.kind == "update" {
+        "panic:space-update".into()
+    } else if text.contains("not implemented") && (m.kind == "auth" || m.kind == "member") {
+        "panic:promote-demote".into()
+    } else if m.kind == "kb" && text.contains("assertion") {
+        "panic:kb-identity-changed".into()
+    } else {
+        format!("panic:{}:{}", m.kind, m.cls)
+    }
+}
+
+impl Exec {
+    async fn new(n: usize, oob: bool) -> Exec {
+        Exec { w: World::new(n, oob).await, applied: vec![BTreeSet::new(); n], app_seen: vec![BTreeMap::new(); n], steps: vec![], oob }
+    }
+
+    fn case(&self) -> Value {
+        json!({"kind": "spaces", "oob": self.oob, "peers": self.w.peers.len(), "steps": self.steps})
+    }
+
+    async fn local(&mut self, p: usize, op: &str, q: usize, acc: &str) -> Result<Vec<usize>, String> {
+        let ids = self.w.local(&self.applied[p].clone(), p, op, q, acc).await?;
+        for i in &ids {
+            self.applied[p].insert(*i);
+        }
+        self.steps.push(json!({"a": "Local", "p": PEER_NAMES[p], "op": op, "q": PEER_NAMES[q], "acc": acc,
+                               "ids": ids.iter().map(|i| i + 1).collect::<Vec<_>>()}));
+        Ok(ids)
+    }
+
+    async fn forge(&mut self, by: usize, cls: &str) -> Option<usize> {
+        let id = self.w.forge_variant(&self.applied[by].clone(), by, cls).await?;
+        self.steps.push(json!({"a": "Forge", "by": PEER_NAMES[by], "cls": cls, "id": id + 1}));
+        Some(id)
+    }
+
+    /// One `process` call on the real manager of peer p, with everything C39 talks about observed.
+    async fn process(&mut self, p: usize, m: usize) -> ProcOut {
+        let peer = &self.w.peers[p];
+        for extra in &self.w.extra {
+            let _ = peer.persist_operation(extra).await;
+        }
+        let again = self.applied[p].contains(&m);
+        let before = snapshot(peer).await;
+        let verdict = process(peer, &self.w.msgs[m].op).await;
+        let msg = &self.w.msgs[m];
+        let kind = msg.kind;
+        let mut violations = vec![];
+        if let Verdict::Panic(text) = &verdict {
+            violations.push((
+                panic_signature(msg, text),
+                format!("Manager::process panicked ({text:?}) on a {kind} message of class {:?} processed by {}", msg.cls, PEER_NAMES[p]),
+            ));
+            self.steps.push(json!({"a": "Process", "p": PEER_NAMES[p], "m": m + 1, "v": "panic", "again": again, "known": false, "smem": {}, "gmem": {}}));
+            return ProcOut {
+                verdict,
+                again,
+                nev: 0,
+                changed_abs: false,
+                changed_digest: false,
+                changed_registry: false,
+                smem: BTreeMap::new(),
+                gmem: BTreeMap::new(),
+                violations,
+            };
+        }
+        let after = snapshot(peer).await;
+        let (smem, gmem) = self.w.members_of(&after);
+        let changed_abs = !before.abs_eq(&after);
+        let changed_digest = !before.digest_eq(&after);
+        let changed_registry = before.d_registry != after.d_registry;
+        let events: Vec<(String, Option<String>)> = match &verdict {
+            Verdict::Ok(evs) => evs.clone(),
+            _ => vec![],
+        };
+        let nev = events.len();
+        for (_, data) in &events {
+            if let Some(d) = data {
+                let c = self.app_seen[p].entry(d.clone()).or_insert(0);
+                *c += 1;
+                if *c > 1 && !again {
+                    violations.push((
+                        "app-event-twice".into(),
+                        format!("{} received the Application event for {d:?} {} times", PEER_NAMES[p], *c),
+                    ));
+                }
+            }
+        }
+        if again {
+            if nev > 0 {
+                violations.push((
+                    format!("redelivery-emits-events:{kind}"),
+                    format!(
+                        "{} processed {kind} message m{} a second time and got events {:?} (expected none)",
+                        PEER_NAMES[p],
+                        m + 1,
+                        events.iter().map(|e| e.0.clone()).collect::<Vec<_>>()
+                    ),
+                ));
+            }
+            if changed_abs || changed_digest {
+                violations.push((
+                    format!("redelivery-changes-state:{kind}"),
+                    format!(
+                        "{} processed {kind} message m{} a second time and its persisted group/space state changed (members/heads changed: {changed_abs}, state digest changed: {changed_digest})",
+                        PEER_NAMES[p],
+                        m + 1
+                    ),
+                ));
+            }
+        } else {
+            match &verdict {
+                Verdict::Ok(_) => {
+                    self.applied[p].insert(m);
+                }
+                Verdict::Err(e) => {
+                    if changed_abs {
+                        violations.push((
+                            format!("error-changed-state:{kind}"),
+                            format!("{} rejected {kind} message m{} ({e}) but its group/space state changed", PEER_NAMES[p], m + 1),
+                        ));
+                    }
+                }
+                Verdict::Panic(_) => unreachable!(),
+            }
+        }
+        self.steps.push(json!({"a": "Process", "p": PEER_NAMES[p], "m": m + 1, "v": verdict.name(), "again": again, "known": false,
+                               "smem": smem, "gmem": gmem}));
+        ProcOut { verdict, again, nev, changed_abs, changed_digest, changed_registry, smem, gmem, violations }
+    }
+}
+
+/// `{"p1": "manage", "p2": "none"}` -> members only
+fn view_map(v: &Value) -> BTreeMap<String, String> {
+    v.as_object()
+        .map(|o| o.iter().filter_map(|(k, a)| a.as_str().filter(|a| *a != "none").map(|a| (k.clone(), a.to_string()))).collect())
+        .unwrap_or_default()
+}
+
+// ---------------------------------------------------------------------------------------------
+// spec -> impl
+
+fn replay(args: &Args) {
+    let behaviours = read_ndjson(args.input.as_ref().expect("--in"));
+    let mut out = Outcome::new(
+        args,
+        "every TLC-exported behaviour (local operations, causal first deliveries, model-scheduled re-deliveries, forged adversarial \
+         content classes) executed on real p2panda_spaces::Manager replicas; after every step every message the replica has already \
+         processed is delivered again (saturation); non-trivial = behaviour with at least one re-delivery of a message that had \
+         changed state or a forged message; distinct by step sequence",
+    );
+    let saturate = args.extra.get("saturate").map(|s| s != "0").unwrap_or(true);
+    let rt = runtime();
+    let mut followed_to_end = 0u64;
+    let mut drifted = 0u64;
+    let mut per_sig: BTreeMap<String, u32> = BTreeMap::new();
+    for b in &behaviours {
+        out.eval();
+        let (viols, counters, complete, nontrivial) = rt.block_on(replay_one(b, saturate));
+        for (k, n) in counters {
+            out.count_by(&k, n);
+        }
+        if complete {
+            followed_to_end += 1;
+        } else if viols.is_empty() {
+            // stopped although nothing was wrong: the export oracle / the guards of the
+            // specification do not describe what the code did here
+            drifted += 1;
+        }
+        if nontrivial {
+            out.mark_distinct(b["steps"].to_string());
+        }
+        if viols.is_empty() {
+            out.sample(b.clone());
+        }
+        for (sig, detail) in viols {
+            // one replayable case per failure class is enough (the total is kept as a counter)
+            out.count(&format!("violations:{sig}"));
+            let c = per_sig.entry(sig.clone()).or_insert(0);
+            *c += 1;
+            if *c <= 1 {
+                out.violation("C39", &sig, detail, b.clone());
+            }
+        }
+    }
+    out.count_by("behaviours-followed-to-the-end", followed_to_end);
+    // drift guard: the verdict oracle of the export (MC_Spaces Likely) must describe the code well
+    // enough that most behaviours can be followed; otherwise the replay would be vacuous.
+    out.count_by("behaviours-left-early-without-violation", drifted);
+    if behaviours.len() >= 20 && drifted * 3 > behaviours.len() as u64 {
+        out.write(args);
+        eprintln!("replay is vacuous: {drifted} of {} behaviours could not be followed (verdict oracle / guards drifted)", behaviours.len());
+        std::process::exit(2);
+    }
+    out.write(args);
+}
+
+type Counters = BTreeMap<String, u64>;
+
+async fn replay_one(b: &Value, saturate: bool) -> (Vec<(String, String)>, Counters, bool, bool) {
+    let mut viols: Vec<(String, String)> = vec![];
+    let mut counters = Counters::new();
+    let mut count = |k: &str| *counters.entry(k.to_string()).or_insert(0) += 1;
+    let n = b["peers"].as_u64().unwrap_or(3) as usize;
+    let oob = b["oob"].as_bool().unwrap_or(true);
+    let mut ex = Exec::new(n, oob).await;
+    let mut nontrivial = false;
+    let mut seen_sigs: BTreeSet<String> = BTreeSet::new();
+    let mut push = |viols: &mut Vec<(String, String)>, v: Vec<(String, String)>| {
+        for (sig, d) in v {
+            if seen_sigs.insert(sig.clone()) {
+                viols.push((sig, d));
+            }
+        }
+    };
+    let steps = b["steps"].as_array().expect("steps");
+    for (k, st) in steps.iter().enumerate() {
+        let mut touched: Option<usize> = None;
+        match st["a"].as_str() {
+            Some("Local") => {
+                let p = peer_index(st["p"].as_str().unwrap());
+                let q = peer_index(st["q"].as_str().unwrap_or("p1"));
+                let op = st["op"].as_str().unwrap();
+                let want: Vec<u64> = st["ids"].as_array().unwrap().iter().map(|x| x.as_u64().unwrap()).collect();
+                match ex.local(p, op, q, st["acc"].as_str().unwrap_or("")).await {
+                    Ok(ids) => {
+                        if ids.iter().map(|i| *i as u64 + 1).collect::<Vec<_>>() != want {
+                            count(&format!("stopped:local-{op}-created-other-messages"));
+                            return (viols, counters, false, nontrivial);
+                        }
+                        count(&format!("local:{op}"));
+                        touched = Some(p);
+                    }
+                    Err(_) => {
+                        count(&format!("stopped:local-{op}-refused"));
+                        return (viols, counters, false, nontrivial);
+                    }
+                }
+            }
+            Some("Forge") => {
+                let by = peer_index(st["by"].as_str().unwrap());
+                let cls = st["cls"].as_str().unwrap();
+                match ex.forge(by, cls).await {
+                    Some(id) if id as u64 + 1 == st["id"].as_u64().unwrap() => {
+                        count(&format!("forged:{cls}"));
+                        nontrivial = true;
+                    }
+                    _ => {
+                        count(&format!("stopped:forge-{cls}-not-constructible"));
+                        return (viols, counters, false, nontrivial);
+                    }
+                }
+            }
+            Some("Process") => {
+                let p = peer_index(st["p"].as_str().unwrap());
+                let m = st["m"].as_u64().unwrap() as usize - 1;
+                let o = ex.process(p, m).await;
+                let kind = ex.w.msgs[m].kind;
+                let cls = ex.w.msgs[m].cls.clone();
+                let panicked = matches!(o.verdict, Verdict::Panic(_));
+                push(&mut viols, o.violations.clone());
+                if panicked {
+                    count("stopped:panic");
+                    return (viols, counters, false, true);
+                }
+                if o.again != st["again"].as_bool().unwrap_or(false) {
+                    count("stopped:again-flag-differs");
+                    return (viols, counters, false, nontrivial);
+                }
+                if o.again {
+                    count(&format!("again:{kind}"));
+                    if o.changed_registry {
+                        count("again:key-registry-changed");
+                    }
+                    if kind != "kb" {
+                        nontrivial = true;
+                    }
+                } else {
+                    count(&format!("first:{kind}:{}:{}", if cls == "valid" { "valid" } else { cls.as_str() }, o.verdict.name()));
+                    if o.verdict.name() != st["v"].as_str().unwrap_or("ok") {
+                        // the code's verdict is an input of the specification; this exported behaviour
+                        // assumed the other one: not a violation, follow it no further
+                        count("stopped:verdict-differs-from-export-oracle");
+                        return (viols, counters, false, nontrivial);
+                    }
+                    if st["known"].as_bool().unwrap_or(false) && matches!(o.verdict, Verdict::Ok(_)) {
+                        let (smem, gmem) = (view_map(&st["smem"]), view_map(&st["gmem"]));
+                        if smem != o.smem || gmem != o.gmem {
+                            push(
+                                &mut viols,
+                                vec![(
+                                    "state-not-function-of-set".into(),
+                                    format!(
+                                        "after step {k} {} shows space members {:?} / group members {:?}, the specification computes {:?} / {:?} from the set of processed messages",
+                                        PEER_NAMES[p], o.smem, o.gmem, smem, gmem
+                                    ),
+                                )],
+                            );
+                        }
+                    }
+                }
+                touched = Some(p);
+            }
+            other => {
+                eprintln!("unknown step {other:?}");
+                std::process::exit(2);
+            }
+        }
+        // saturation: every message this replica has processed so far, delivered again now
+        if let (true, Some(p)) = (saturate, touched) {
+            let ids: Vec<usize> = ex.applied[p].iter().copied().collect();
+            let mark = ex.steps.len();
+            for m in ids {
+                let o = ex.process(p, m).await;
+                let kind = ex.w.msgs[m].kind;
+                count(&format!("saturation:{kind}"));
+                let panicked = matches!(o.verdict, Verdict::Panic(_));
+                push(&mut viols, o.violations.clone());
+                if panicked {
+                    return (viols, counters, false, true);
+                }
+            }
+            // saturation steps are not part of the exported behaviour: keep the case as exported
+            ex.steps.truncate(mark);
+        }
+    }
+    (viols, counters, true, nontrivial)
+}
+
+// ---------------------------------------------------------------------------------------------
+// impl -> spec
+
+fn record(args: &Args) {
+    let mut rng = Rng::new(args.seed);
+    let n = if args.n > 0 { args.n } else { 30 };
+    let mut trace = TraceWriter::create(args.out.as_ref().expect("--out"));
+    let mut out = Outcome::new(
+        args,
+        "seeded random spaces histories on 3 real Manager replicas (single manager; key bundles, create, add/remove with \
+         read/write/pull access, application messages, forged adversarial classes), first deliveries in causal order, every \
+         processed message delivered again at a random later point (the rest at the end of the run); one trace event per call; \
+         non-trivial = re-delivery of a message that was accepted; distinct by (run, peer, message)",
+    );
+    let rt = runtime();
+    let mut per_sig: BTreeMap<String, u32> = BTreeMap::new();
+    for run in 0..n {
+        let seed = rng.next_u64();
+        let (viols, counters, distinct, case) = rt.block_on(record_one(run, seed, &mut trace, args.thorough()));
+        for (k, c) in counters {
+            out.count_by(&k, c);
+        }
+        for d in distinct {
+            out.eval();
+            out.mark_distinct(d);
+        }
+        if viols.is_empty() {
+            out.sample(json!({"run": run, "steps": case["steps"].as_array().map(|a| a.len())}));
+        }
+        for (sig, detail) in viols {
+            out.count(&format!("violations:{sig}"));
+            let c = per_sig.entry(sig.clone()).or_insert(0);
+            *c += 1;
+            if *c <= 1 {
+                out.violation("C39", &sig, detail, case.clone());
+            }
+        }
+    }
+    let (events, runs) = trace.finish();
+    out.set_trace(events, runs);
+    out.write(args);
+}
+
+async fn record_one(run: usize, seed: u64, trace: &mut TraceWriter, thorough: bool) -> (Vec<(String, String)>, Counters, Vec<String>, Value) {
+    let mut rng = Rng::new(seed);
+    let mut viols: Vec<(String, String)> = vec![];
+    let mut seen_sigs: BTreeSet<String> = BTreeSet::new();
+    let mut counters = Counters::new();
+    let mut distinct = vec![];
+    let n = 3usize;
+    let oob = rng.chance(2, 3);
+    let mut ex = Exec::new(n, oob).await;
+    trace.event(json!({"ev": "Reset", "run": run, "oob": oob}));
+    // harness-side mirror of the specification's guards (only operations the specification allows
+    // are attempted; what the code refuses is simply not logged)
+    let mut created = false;
+    let mut gview: BTreeMap<usize, String> = BTreeMap::new(); // manager's view of the group
+    let mut tainted = vec![false; n];
+    let mut redelivered: BTreeSet<(usize, usize)> = BTreeSet::new();
+    let mut nforge = 0;
+    let steps = rng.range(25, if thorough { 70 } else { 45 });
+    let mut step = 0;
+    let mut flushing = false;
+    loop {
+        step += 1;
+        if step > steps {
+            flushing = true;
+        }
+        // candidate actions
+        let mut first: Vec<(usize, usize)> = vec![];
+        let mut again: Vec<(usize, usize)> = vec![];
+        for p in 0..n {
+            for m in 0..ex.w.msgs.len() {
+                if ex.applied[p].contains(&m) {
+                    if !redelivered.contains(&(p, m)) {
+                        again.push((p, m));
+                    }
+                } else if ex.w.msgs[m].spec_deps.is_subset(&ex.applied[p]) && !ex.w.msgs[m].cls.is_empty() {
+                    first.push((p, m));
+                }
+            }
+        }
+        // messages that were rejected are not offered again (the verdict would repeat)
+        first.retain(|(p, m)| !redelivered.contains(&(*p + 100, *m)));
+        let choice = if flushing {
+            if again.is_empty() {
+                break;
+            }
+            2
+        } else {
+            match rng.below(10) {
+                0..=2 => 0,                       // local operation / forge
+                3..=6 if !first.is_empty() => 1,  // first delivery
+                _ if !again.is_empty() => 2,      // re-delivery
+                _ if !first.is_empty() => 1,
+                _ => 0,
+            }
+        };
+        match choice {
+            0 => {
+                // pick an operation the specification's guards allow
+                let has_bundle = |ex: &Exec, q: usize| {
+                    oob || q == MANAGER || ex.applied[MANAGER].iter().any(|k| ex.w.valid(*k) && ex.w.msgs[*k].kind == "kb" && ex.w.msgs[*k].author == q)
+                };
+                let mut ops: Vec<(usize, &str, usize, &str)> = vec![];
+                for p in 0..n {
+                    ops.push((p, "kb", p, ""));
+                }
+                let accs = ["write", "read", "pull"];
+                if !created && !tainted[MANAGER] {
+                    for q in 0..n {
+                        if has_bundle(&ex, q) {
+                            ops.push((MANAGER, "create", q, *rng.pick(&accs)));
+                            ops.push((MANAGER, "create", q, *rng.pick(&accs)));
+                        }
+                    }
+                }
+                if created && !tainted[MANAGER] {
+                    for q in 1..n {
+                        if !gview.contains_key(&q) && has_bundle(&ex, q) {
+                            ops.push((MANAGER, "add", q, *rng.pick(&accs)));
+                            ops.push((MANAGER, "add", q, *rng.pick(&accs)));
+                        }
+                        if gview.contains_key(&q) {
+                            ops.push((MANAGER, "remove", q, ""));
+                        }
+                    }
+                }
+                if created {
+                    for p in 0..n {
+                        if !tainted[p] {
+                            // Spaces.tla WelcomedOf: a valid member message in applied[p] whose auth operation welcomed p
+                            let welcomed = ex.applied[p].iter().any(|k| {
+                                let m = &ex.w.msgs[*k];
+                                m.kind == "member" && m.cls == "valid" && m.reference.map_or(false, |a| {
+                                    let a = &ex.w.msgs[a];
+                                    (a.act == "create" && (p == MANAGER || (a.q == p && a.acc != "pull"))) || (a.act == "add" && a.q == p && a.acc != "pull")
+                                })
+                            });
+                            if welcomed {
+                                ops.push((p, "publish", p, ""));
+                                ops.push((p, "publish", p, ""));
+                            }
+                        }
+                    }
+                }
+                let want_forge = created && !tainted[MANAGER] && nforge < 3 && rng.chance(1, 4);
+                if want_forge {
+                    let cls = *rng.pick(&ALL_CLASSES[..26]);
+                    let by = match cls {
+                        "auth_non_manager" | "member_dup_pointer" => rng.range(1, n as u64 - 1) as usize,
+                        c if c.starts_with("app_") || c.starts_with("kb_") || c == "update_unknown" => rng.below(n as u64) as usize,
+                        _ => MANAGER,
+                    };
+                    // Spaces.tla ForgePre
+                    let pre = match cls {
+                        "auth_promote" | "auth_demote" | "member_ptr_promote" => !gview.is_empty(),
+                        "member_ptr_not_auth" => ex.w.msgs.iter().any(|m| m.cls == "valid" && (m.kind == "kb" || m.kind == "app")),
+                        "member_unknown_space" => ex.w.msgs.iter().any(|m| m.cls == "valid" && m.kind == "auth" && m.act != "create"),
+                        "member_dup_pointer" => ex.applied[by].iter().any(|k| ex.w.valid(*k) && ex.w.msgs[*k].kind == "auth"),
+                        "app_unknown_dep" => ex.w.msgs.iter().any(|m| m.cls == "valid" && m.kind == "app"),
+                        _ => true,
+                    };
+                    if pre {
+                        if let Some(id) = ex.forge(by, cls).await {
+                            nforge += 1;
+                            *counters.entry(format!("forged:{cls}")).or_insert(0) += 1;
+                            trace.event(json!({"ev": "Forge", "by": PEER_NAMES[by], "cls": cls, "id": id + 1}));
+                        }
+                    }
+                    continue;
+                }
+                let (p, op, q, acc) = *rng.pick(&ops);
+                match ex.local(p, op, q, acc).await {
+                    Ok(ids) => {
+                        match op {
+                            "create" => {
+                                created = true;
+                                if q != MANAGER {
+                                    gview.insert(q, acc.to_string());
+                                }
+                            }
+                            "add" => {
+                                gview.insert(q, acc.to_string());
+                            }
+                            "remove" => {
+                                gview.remove(&q);
+                            }
+                            _ => {}
+                        }
+                        *counters.entry(format!("local:{op}")).or_insert(0) += 1;
+                        trace.event(json!({"ev": "Local", "p": PEER_NAMES[p], "op": op, "q": PEER_NAMES[q], "acc": acc,
+                                           "ids": ids.iter().map(|i| i + 1).collect::<Vec<_>>()}));
+                    }
+                    Err(_) => {
+                        *counters.entry(format!("local-refused:{op}")).or_insert(0) += 1;
+                    }
+                }
+            }
+            _ => {
+                let (p, m) = if choice == 1 { *rng.pick(&first) } else { *rng.pick(&again) };
+                let o = ex.process(p, m).await;
+                let kind = ex.w.msgs[m].kind;
+                let cls = ex.w.msgs[m].cls.clone();
+                let mut skip: Option<String> = None;
+                for (sig, d) in &o.violations {
+                    if KNOWN_SIGNATURES.contains(&sig.as_str()) && o.violations.len() == 1 {
+                        skip = Some(sig.clone());
+                    }
+                    if seen_sigs.insert(sig.clone()) {
+                        viols.push((sig.clone(), d.clone()));
+                    }
+                }
+                if o.again {
+                    redelivered.insert((p, m));
+                    *counters.entry(format!("again:{kind}")).or_insert(0) += 1;
+                    if o.changed_registry {
+                        *counters.entry("again:key-registry-changed".into()).or_insert(0) += 1;
+                    }
+                    distinct.push(format!("{run}:{p}:{m}"));
+                } else {
+                    *counters.entry(format!("first:{kind}:{}:{}", if cls == "valid" { "valid" } else { cls.as_str() }, o.verdict.name())).or_insert(0) += 1;
+                    match o.verdict {
+                        Verdict::Ok(_) => {
+                            if cls != "valid" {
+                                tainted[p] = true;
+                            }
+                        }
+                        _ => {
+                            redelivered.insert((p + 100, m));
+                        }
+                    }
+                }
+                let mut ev = json!({"ev": "Process", "p": PEER_NAMES[p], "m": m + 1, "res": o.verdict.name(), "again": o.again,
+                                    "nev": o.nev, "changed": o.changed_abs || o.changed_digest, "changedAbs": o.changed_abs, "kind": kind, "cls": cls,
+                                    "smem": o.smem, "gmem": o.gmem});
+                if let Some(sig) = skip {
+                    ev["skip"] = json!(sig);
+                }
+                trace.event(ev);
+                if matches!(o.verdict, Verdict::Panic(_)) {
+                    // the replica is not used again after a panic
+                    break;
+                }
+            }
+        }
+        if step > steps + 400 {
+            break;
+        }
+    }
+    let case = ex.case();
+    (viols, counters, distinct, case)
 }
